@@ -371,6 +371,9 @@ class PCACD(StreamingDetector):
         intersection = np.sum(
             np.minimum(density_reference["density"], density_test["density"])
         )
-        divergence = 1 - intersection
+        # the densities sum to one only up to rounding: an intersection of
+        # 1 + 2e-16 would give a negative score (and, through Page-Hinkley's
+        # threshold * mean, a negative threshold and a false alarm)
+        divergence = max(0.0, 1 - intersection)
 
         return divergence
